@@ -557,6 +557,77 @@ fn derived_eos_subset(fails: &mut Vec<Value>, count: &mut usize) {
     }
 }
 
+
+/// Correspondence of the Coq model HenryIdxC09.v with `State::henrys_law_constant`: `plan` (evaluated by coqc from the model's definitions
+/// for every zero pattern: solvent index list, write-back codes of the full-length vapour composition, selected result positions) is
+/// replayed on the public API — sub-model of the solvent, bubble point, liquid and vapour state, ln phi — and must reproduce the returned
+/// Henry constants exactly (same operations in the same order).
+fn henry_model_family<R: Residual + 'static>(fam: &str, eos: &Arc<R>, order: &[usize], t_red: f64, plan: &Value, fails: &mut Vec<Value>, count: &mut usize, skipped: &mut usize) {
+    use feos_core::{Contributions, PhaseEquilibrium, ReferenceSystem, State};
+    use quantity::Temperature;
+    let n = order.len();
+    let t = Temperature::from_reduced(t_red);
+    for mask in 1..(1usize << n) - 1 {
+        // bit i set: position i is a solute (mole fraction exactly zero)
+        let pat: String = (0..n).map(|i| if mask >> i & 1 == 1 { '1' } else { '0' }).collect();
+        let Some(pl) = plan.get(&pat) else { continue };
+        let fr: &[f64] = match n - mask.count_ones() as usize { 1 => &[1.0], 2 => &[0.4, 0.6], _ => &[0.2, 0.3, 0.5] };
+        let mut k = 0;
+        let x = Array1::from_vec((0..n).map(|i| if mask >> i & 1 == 1 { 0.0 } else { k += 1; fr[k - 1] }).collect::<Vec<_>>());
+        let idx: Vec<usize> = pl["idx"].as_array().unwrap().iter().map(|v| v.as_u64().unwrap() as usize).collect();
+        let codes: Vec<usize> = pl["vapor"].as_array().unwrap().iter().map(|v| v.as_u64().unwrap() as usize).collect();
+        let sel: Vec<usize> = pl["solutes"].as_array().unwrap().iter().map(|v| v.as_u64().unwrap() as usize).collect();
+        let got = State::henrys_law_constant(eos, t, &x).ok().map(|h| h.to_reduced().to_vec());
+        let expected = (|| -> Option<Vec<f64>> {
+            let solvent = Arc::new(eos.subset(&idx));
+            let xs = Array1::from_vec(idx.iter().map(|&i| x[i]).collect::<Vec<_>>());
+            let vle = if idx.len() == 1 {
+                PhaseEquilibrium::pure(&solvent, t, None, Default::default()).ok()?
+            } else {
+                PhaseEquilibrium::bubble_point(&solvent, t, &xs, None, None, Default::default()).ok()?
+            };
+            let liquid = State::new_nvt(eos, t, vle.liquid().volume, &(&x * vle.liquid().total_moles)).ok()?;
+            let yv = Array1::from_vec(codes.iter().enumerate().map(|(i, &c)| if c >= 100 { vle.vapor().molefracs[c - 100] } else { x[i] }).collect::<Vec<_>>());
+            let vapor = State::new_nvt(eos, t, vle.vapor().volume, &(yv * vle.vapor().total_moles)).ok()?;
+            let p = vle.vapor().pressure(Contributions::Total).to_reduced();
+            let h = (liquid.ln_phi() - vapor.ln_phi()).mapv(f64::exp) * p;
+            Some(sel.iter().map(|&i| h[i]).collect())
+        })();
+        match (got, expected) {
+            (Some(g), Some(e)) => {
+                *count += 1;
+                if g.len() != e.len() || g.iter().zip(&e).any(|(a, b)| !((a - b).abs() <= 1e-12 * a.abs().max(b.abs()))) {
+                    fails.push(json!({"family": fam, "component_order": order, "zero_pattern": pat, "molefracs": x.to_vec(), "T": t_red, "henrys_law_constant": g, "model_plan_replayed": e, "plan": pl}));
+                }
+            }
+            (None, None) => *skipped += 1,
+            (g, e) => {
+                *count += 1;
+                fails.push(json!({"family": fam, "component_order": order, "zero_pattern": pat, "molefracs": x.to_vec(), "T": t_red, "henrys_law_constant": g, "model_plan_replayed": e, "plan": pl}));
+            }
+        }
+    }
+}
+
+fn henry_model(plan_path: &str) -> Value {
+    let plan: Value = serde_json::from_str(&std::fs::read_to_string(plan_path).expect("plan file")).expect("plan json");
+    let (mut fails, mut count, mut skipped) = (Vec::new(), 0usize, 0usize);
+    for order in [[0usize, 1, 2], [1, 2, 0], [2, 1, 0], [0, 2, 1]] {
+        let m = Arc::new(PengRobinson::new(Arc::new(configs::peng_robinson_params_idx(&order))));
+        henry_model_family("PengRobinson", &m, &order, 300.0, &plan, &mut fails, &mut count, &mut skipped);
+    }
+    for order in [vec![0usize, 1], vec![1, 0]] {
+        let m = Arc::new(PengRobinson::new(Arc::new(configs::peng_robinson_params_idx(&order))));
+        henry_model_family("PengRobinson", &m, &order, 310.0, &plan, &mut fails, &mut count, &mut skipped);
+    }
+    let names = ["methane", "propane", "butane", "hexane"];
+    for order in [vec![0usize, 1, 2, 3], vec![3, 0, 2, 1], vec![1, 3, 0, 2]] {
+        let m = Arc::new(PcSaft::new(Arc::new(pcsaft_from_idx(&names, &order, "gross2001.json", 0.01))));
+        henry_model_family("PcSaft", &m, &order, 290.0, &plan, &mut fails, &mut count, &mut skipped);
+    }
+    json!({"comparisons": count, "both_failed_to_converge": skipped, "failures": fails})
+}
+
 /// 1 bar in reduced units (K / A^3)
 const BAR: f64 = 1e5 / 1.380649e-23 / 1e30;
 
@@ -708,6 +779,11 @@ pub fn run(out_dir: &str, tier: &str, seed: u64, only: Option<String>) -> Value 
 
 fn main() {
     let cli = feos_verif::cli::Cli::parse("/verif/coq/gen/C09");
+    if let Some(plan) = cli.opt("--plan") {
+        // second stage: replay the plan evaluated from the Coq model (HenryIdxC09.v) on the public API
+        cli.write_impl(&json!({"henry_model": henry_model(&plan)}));
+        return;
+    }
     let res = run(&cli.out, &cli.tier, cli.seed, cli.opt("--only"));
     cli.write_impl(&res);
 }
